@@ -4,6 +4,7 @@ C15 — buffer size accounting is exact and the capacity of a backend-wide conte
 import SC.Lemmas.BufSize
 import SC.Lemmas.BufCap
 import SC.Lemmas.BufBound
+import SC.Lemmas.Buffer
 namespace SC.Props
 open SC SC.B
 
@@ -71,6 +72,31 @@ example :
       [.openObj true 0 none, .enterCls (some 0), .call (.root 0) (.dSetitem (.s "a") (.leaf (.int 1))),
        .call (.root 0) (.dSetitem (.s "b") (.leaf (.int 2)))]
     s.size = 0 ∧ s.entries.length = 1 ∧ (s.store 0).isSome = true := by
+  decide
+
+/-- C15 under I/O failures: the histories above include the step `setFailing rs` ("from now on
+writing these files raises OSError"), so exactness, the bound and zero-outside hold through flushes
+that fail half-way.  One such flush, spelled out: the write of a modified, non-conflicting buffered
+file fails — the error is `OSError`, no file changes, and the file has left the buffer (so it is
+no longer counted). -/
+theorem C15_failed_write_leaves_buffer (s : B.State) (oi : Nat) (o : B.Obj) (force : Bool) (e : B.Entry)
+    (hb : (!(s.isBuffered o) || force) = true) (he : s.entry o.res = some e)
+    (hm : Tr.same e.contents e.hash = false) (hc : e.fmeta = s.stat o.res)
+    (hmerge : (mergeInto s oi o e.contents).2 = none) (hw : s.failing.contains o.res = true) :
+    (flushSer s oi o force).2 = some (.other "OSError") ∧
+    (flushSer s oi o force).1.stores = s.stores ∧ (flushSer s oi o force).1.metas = s.metas ∧
+    (flushSer s oi o force).1.entry o.res = none :=
+  flushSer_write_fails s oi o force e hb he hm hc hmerge hw
+
+/-- non-vacuity with a failing disk: two files buffered, the write of file 1 fails at the exit;
+afterwards the size is 0, the buffer empty, file 0 written, file 1 still missing -/
+example :
+    let fam : Fam := ⟨[.requireStringKey, .jsonFormat], [.requireStringKey, .jsonFormat]⟩
+    let s := run (B.State.init fam .sharedMemory [])
+      [.openObj true 0 none, .openObj false 1 none, .enterCls none,
+       .call (.root 0) (.dSetitem (.s "a") (.leaf (.int 1))), .call (.root 1) (.lAppend (.leaf (.int 2))),
+       .setFailing [1], .exitCls]
+    s.ctx = 0 ∧ s.entries.length = 0 ∧ s.size = 0 ∧ (s.store 0).isSome = true ∧ (s.store 1).isNone = true := by
   decide
 
 /-- non-vacuity of the zero-outside clause: a history that buffers two files inside nested contexts
